@@ -104,12 +104,17 @@ def serveAll (app : App) : AppState → List HReq → AppState × List Response
     let (st'', os) := serveAll app st' rs
     (st'', o :: os)
 
+/-- drop repeated ids (keeps the last occurrence) -/
+def dedup : List Nat → List Nat
+  | [] => []
+  | a :: r => if (dedup r).contains a then dedup r else a :: dedup r
+
 /-- the requests whose per-request objects (environ, input stream) are still reachable from the
 application: the environ held by the request object and the frames held by the traceback chains
 of the shared error objects -/
 def retained (st : AppState) : List Nat :=
-  ((match st.slots.req with
+  dedup ((match st.slots.req with
     | some q => [q.id]
-    | none => []) ++ st.shared.flatMap (·.tb)).eraseDups
+    | none => []) ++ st.shared.flatMap (·.tb))
 
 end Ombott.History
